@@ -484,35 +484,84 @@ Proof.
   rewrite lookup_alookup in E. apply alookup_In in E. eauto.
 Qed.
 
+Lemma cas_loop_S : forall fuel k v e expected,
+  cas_loop (S fuel) k v e expected =
+  Cmd (fun _ => WATCH (rKey k)) (fun _ =>
+  Cmd (fun _ => GETC (rKey k)) (fun r =>
+    match r with
+    | RVal (Some p) =>
+        if Nat.eqb (p_ver p) expected then
+          NewID (fun n =>
+          Cmd (fun now => EXEC_SET (rKey k) (mkPl k v n e) (expiration e now)) (fun x =>
+          Cmd (fun _ => UNWATCH) (fun _ =>
+            match x with
+            | RTxFailed => cas_loop fuel k v e expected
+            | _ => Ret (ORec (k, v, n, e))
+            end)))
+        else Cmd (fun _ => UNWATCH) (fun _ => Ret OConflict)
+    | _ => Cmd (fun _ => UNWATCH) (fun _ => Ret ONotExist)
+    end)).
+Proof. reflexivity. Qed.
+
+(* the whole CasByVersion on a server nobody else talks to, for any positive fuel: WATCH, GET, and
+   (version equal) MULTI/SET/EXEC, which cannot be aborted; the connection ends un-watched *)
+Lemma rk_cas_gen : forall fuel now k v e n st nx,
+  run_prog now now 0 (cas_loop (S fuel) k v e n) (mkR (mkSrv st []) nx) =
+  match s_find now (rKey k) (mkSrv st []) with
+  | Some y =>
+      if Nat.eqb (p_ver (e_pl y)) n
+      then (mkR (mkSrv (s_set (rKey k) (mkEnt (mkPl k v nx e) (deadline now (expiration e now))) st) []) (S nx),
+            ORec (k, v, nx, e))
+      else (mkR (mkSrv st []) nx, OConflict)
+  | None => (mkR (mkSrv st []) nx, ONotExist)
+  end.
+Proof.
+  intros. rewrite cas_loop_S. unfold add_watch.
+  cbn [run_prog srv_cmd r_srv r_nxt store watches].
+  rewrite (s_find_store now (rKey k) st _ []).
+  destruct (s_find now (rKey k) (mkSrv st [])) as [y|]; cbn [option_map].
+  - destruct (Nat.eqb (p_ver (e_pl y)) n).
+    + cbn [run_prog srv_cmd r_srv r_nxt conn_dirty w_conn w_dirty Nat.eqb andb orb store watches].
+      unfold do_set. cbn [store watches]. rewrite unwatch_touch_single.
+      cbn [run_prog srv_cmd r_srv r_nxt store watches unwatch filter]. reflexivity.
+    + cbn [run_prog srv_cmd r_srv r_nxt store watches unwatch filter w_conn Nat.eqb negb]. reflexivity.
+  - cbn [run_prog srv_cmd r_srv r_nxt store watches unwatch filter w_conn Nat.eqb negb]. reflexivity.
+Qed.
+
+Lemma rk_cas_run : forall now k v e n st nx,
+  rk_step (mkR (mkSrv st []) nx) now now (CasByVersion k v e n) =
+  match s_find now (rKey k) (mkSrv st []) with
+  | Some y =>
+      if Nat.eqb (p_ver (e_pl y)) n
+      then (mkR (mkSrv (s_set (rKey k) (mkEnt (mkPl k v nx e) (deadline now (expiration e now))) st) []) (S nx),
+            ORec (k, v, nx, e))
+      else (mkR (mkSrv st []) nx, OConflict)
+  | None => (mkR (mkSrv st []) nx, ONotExist)
+  end.
+Proof. intros. exact (rk_cas_gen 7 now k v e n st nx). Qed.
+
 Lemma cas_ok : forall f lo sp rs now k v e n, rinv f lo sp (r_srv rs) (r_nxt rs) -> (lo <= now)%Z -> clean k ->
   n < next sp -> step_ok f lo sp rs now (CasByVersion k v e n).
 Proof.
   intros f lo sp [[st ws] nx] now k v e n Hi Hlo Hk Hn. cbn [r_srv r_nxt] in Hi.
   pose proof (ri_watch _ _ _ _ _ Hi) as Hw. cbn [watches] in Hw. subst ws.
-  unfold step_ok, rk_step, rk_prog, retry_fuel.
-  cbn [ren_op run_prog cas_loop srv_cmd step op_floor r_srv r_nxt store watches add_watch].
+  unfold step_ok. cbn [ren_op step op_floor]. rewrite rk_cas_run.
   pose proof (find_rel f lo sp _ _ now k Hi Hlo Hk) as H.
-  change (s_find now (rKey k) (mkSrv st [mkW 0 [rKey k] false])) with (s_find now (rKey k) (mkSrv st [])).
   destruct (find now k sp) as [r|] eqn:Ef.
   - destruct (s_find now (rKey k) (mkSrv st [])) as [y|] eqn:Es; [|contradiction].
-    cbn [option_map]. rewrite H. cbn [p_ver].
+    rewrite H. cbn [p_ver].
     rewrite (f_eqb f lo sp _ _ (ver r) n Hi (find_ver_range sp now k r (ri_fresh _ _ _ _ _ Hi) Ef) Hn).
     destruct (Nat.eqb (ver r) n) eqn:Ev.
     + (* the version matches: EXEC succeeds (nobody touched the key since WATCH) *)
       destruct (set_rel f lo sp (mkSrv st []) nx now k v e nx Hi Hk (Nat.le_refl _)) as [Hr Ha].
       exists (ext f (next sp) nx). split; [exact Ha|].
-      cbn [run_prog srv_cmd r_srv r_nxt conn_dirty w_conn w_dirty Nat.eqb andb orb].
-      unfold do_set. cbn [store watches]. rewrite unwatch_touch_single.
-      cbn [run_prog srv_cmd r_srv r_nxt store watches unwatch filter fst snd].
-      unfold write in *. cbn [fst snd ren_out ren_orec store] in *. split.
+      unfold write in *. cbn [fst snd r_srv r_nxt ren_out ren_orec store] in *. split.
       * unfold ext. rewrite Nat.eqb_refl. reflexivity.
       * exact Hr.
-    + exists f. split; [auto|].
-      cbn [run_prog srv_cmd r_srv r_nxt store watches unwatch filter w_conn Nat.eqb negb fst snd ren_out].
+    + exists f. split; [auto|]. cbn [fst snd r_srv r_nxt ren_out].
       split; [reflexivity|]. eapply rinv_mono; [apply Z.le_max_l|apply Nat.le_refl|exact Hi].
   - destruct (s_find now (rKey k) (mkSrv st [])) as [y|] eqn:Es; [contradiction|].
-    exists f. split; [auto|].
-    cbn [option_map run_prog srv_cmd r_srv r_nxt store watches unwatch filter w_conn Nat.eqb negb fst snd ren_out].
+    exists f. split; [auto|]. cbn [fst snd r_srv r_nxt ren_out].
     split; [reflexivity|]. eapply rinv_mono; [apply Z.le_max_l|apply Nat.le_refl|exact Hi].
 Qed.
 
